@@ -1017,6 +1017,9 @@ class ComplexGammatoneFilterBank(LinearFilterBank):
             alpha_const = log_2 * (2 * order - 1)
             alpha_const += 2 * log_factorial
             alpha_const -= log_double_factorial
+            # ERB = integral of |H|^2 over omega / max |H|^2
+            #     = alpha * pi * (2n-2)! / (2^(2n-2) * (n-1)!^2)
+            alpha_const -= np.log(2 * np.pi)
         else:
             alpha_const = -0.5 * np.log(4 * (2 ** (1 / order)) - 4)
         for left_intersect, right_intersect in zip(edges[:-1], edges[1:]):
